@@ -18,6 +18,7 @@ import (
 	"bytes"
 	"math/big"
 	"sort"
+	"sync"
 	"sync/atomic"
 
 	"github.com/ethereum/go-ethereum/common"
@@ -137,6 +138,25 @@ func rootOf(items []kv) common.Hash {
 	return st.Hash()
 }
 
+// storageRoot is rootOf with a memo (pure function of the slot set; the same few small storages recur in
+// every compared case).
+var storageRoots sync.Map
+
+func storageRoot(slots []kv) common.Hash {
+	sort.Slice(slots, func(i, j int) bool { return bytes.Compare(slots[i].k, slots[j].k) < 0 })
+	var key []byte
+	for _, s := range slots {
+		key = append(append(key, s.k...), s.v...)
+		key = append(key, '|')
+	}
+	if h, ok := storageRoots.Load(string(key)); ok {
+		return h.(common.Hash)
+	}
+	h := rootOf(slots)
+	storageRoots.Store(string(key), h)
+	return h
+}
+
 // Root computes the Yellow Paper state root of w (secure Merkle-Patricia trie of
 // RLP(nonce, balance, storageRoot, codeHash) keyed by keccak(address)).
 func (w World) Root() common.Hash {
@@ -157,7 +177,7 @@ func (w World) Root() common.Hash {
 			enc, _ := rlp.EncodeToBytes(trimLeft(v[:]))
 			slots = append(slots, kv{crypto.Keccak256(k[:]), enc})
 		}
-		sroot := rootOf(slots)
+		sroot := storageRoot(slots)
 		enc, err := rlp.EncodeToBytes([]any{acc.Nonce, acc.Balance, sroot[:], crypto.Keccak256(acc.Code)})
 		if err != nil {
 			panic(err)
